@@ -473,6 +473,12 @@ def _recipe(P, body, term, depth=0):
                 cv = T.const_value(s["r"]["o"]["k"])
                 if isinstance(cv[1], (bytes, str)):
                     consts.append(cv[1])
+        # `|x| format!("{x}")` and `|x| x.to_string()` both render the element with its Display impl
+        if len(sig) == 1 and sig[0].endswith("to_string") and not consts:
+            return ("closure", ("display",), ())
+        if "fmt::format" in sig and "Argument::new_display" in sig and not [c for c in sig if c not in ("Argument::new_display", "Arguments::new", "fmt::format", "hint::must_use")] \
+                and consts in ([b"\xc0\x00"], [bytes(b"\xc0\x00")]):
+            return ("closure", ("display",), ())
         return ("closure", tuple(sig), tuple(consts))
     if t[0] == "field":
         fp = Q.field_path(t)
